@@ -52,8 +52,8 @@ extern "C" void h_any(void)
 	vp_reach(1);
 }
 
-static const char* const TOK[] = { "{", "}", "[", "]", ",", ":", "\"a\"", "\"\\\\\"", "\"\xc3\xa9\"", "1", "-0", "1.5e3", "123456789012", "true", "null", " ", "\n", "\"\\u00e9\"", "=", "Y", "a", "/**/", "//\n", "\"\\ud83d\\ude00\"" };
-#define NTOK 24
+static const char* const TOK[] = { "{", "}", "[", "]", ",", ":", "\"a\"", "\"\\\\\"", "\"\xc3\xa9\"", "1", "-0", "1.5e3", "123456789012", "true", "null", " ", "\n", "\"\\u00e9\"", "=", "Y", "a", "/**/", "//\n", "\"\\ud83d\\ude00\"", "-3000000000", "-2147483648", "2147483647", "0.5", "1E-2" };
+#define NTOK 29
 // p0 = number of tokens, p1 = 1: splice one fully symbolic byte at a symbolic position, p2 = token alphabet size (first p2 tokens)
 extern "C" void h_tokens(void)
 {
@@ -69,6 +69,45 @@ extern "C" void h_tokens(void)
 	t[n] = 0;
 	both(t, n);
 	vp_reach(2);
+}
+
+// numbers: optional '-', a symbolic leading digit, p0 further digits (9s or 0s by p1), optional fraction/exponent (p2): both parsers agree
+extern "C" void h_number(void)
+{
+	int nd = vp_param(0), fill = vp_param(1), tail = vp_param(2);
+	char t[40]; int n = 0;
+	if (nondet_bool()) t[n++] = '-';
+	t[n] = (char)nondet_u8(); vp_assume(t[n] >= '1' && t[n] <= '9'); n++;
+	for (int i = 0; i < nd; i++) t[n++] = fill ? '9' : '0';
+	static const char* const TAIL[4] = { "", ".25", "e2", ".5E-3" };
+	int l = (int)strlen(TAIL[tail]); memcpy(t + n, TAIL[tail], l); n += l;
+	t[n] = 0;
+	both(t, n);
+	vp_reach(4);
+}
+
+// layout: a fixed valid document with symbolic separators ("", " ", "\n", "\t\r\n") in two symbolic gaps between its tokens
+extern "C" void h_layout(void)
+{
+	static const char* const DOC[2][14] = { { "{", "\"a\"", ":", "1", ",", "\"b\"", ":", "[", "2", ",", "3", "]", "}", 0 }, { "[", "{", "\"k\"", ":", "true", "}", ",", "-1.5e3", ",", "null", ",", "\"s\"", "]", 0 } };
+	static const char* const SEP[4] = { "", " ", "\n", "\t\r\n" };
+	int which = vp_param(0);
+	int g1 = vp_concretize(vp_range(0, 13)), g2 = vp_concretize(vp_range(g1, 13));
+	int s1 = vp_concretize(vp_range(1, 3)), s2 = vp_concretize(vp_range(0, 3));
+	char t[64]; int n = 0;
+	for (int i = 0; i <= 13; i++) {
+		const char* sep = i == g1 ? SEP[s1] : i == g2 ? SEP[s2] : "";
+		int l = (int)strlen(sep); memcpy(t + n, sep, l); n += l;
+		if (i == 13) break;
+		l = (int)strlen(DOC[which][i]); memcpy(t + n, DOC[which][i], l); n += l;
+	}
+	t[n] = 0;
+	npool = 0; RV r;
+	vp_assert(jparse(t, r, todouble), "layout variant is strict JSON (harness self-check)");
+	Var whole = Json::decode(t);
+	vp_assert(whole.ok(), "every strict JSON document is accepted (any whitespace layout)");
+	vp_assert(vmatch(whole, r), "and yields the same value as the independent parser");
+	vp_reach(5);
 }
 
 // nesting: p0 = depth: "[[[...1...]]]" and {"a":{"a":...}} documents
